@@ -279,7 +279,7 @@ func main() {
 	}
 
 	// ---- part 1a: contiguous seconds around zero ---------------------------
-	contigDays := r.Pick(3, 3)
+	const contigDays = 3
 	lo := -int64(contigDays) * 86400
 	n := int(2*int64(contigDays)*86400 + 1)
 
@@ -507,7 +507,7 @@ func main() {
 		r.Sample(map[string]any{"duration": d.String(), "printed": w.Text, "parsed": got.String(), "error": fmt.Sprint(err)})
 	}
 
-	r.Rule("print: every listed duration d through util.FormatDuration(d,true) then util.ParseDuration; must parse, and equal d exactly (whole seconds) or within <1s (sub-second part). spelling: every text [-](Nd)?(Nh)?(Nm)?(Ns)? with units in that order, each gap independently none or one space, N from the listed set; must parse to sign*(24h*d+h+m+s). distinct = distinct text shape (part, sign, units present, digit count of each number, spacing)")
+	r.Rule("print: every duration d of the sets named in coverage (print_*: contiguous seconds, component product, sub-second offsets; thorough: every second of +-print_every_second_of_pm_hours hours and every day count) through util.FormatDuration(d,true) then util.ParseDuration; must parse, and equal d exactly (whole seconds) or within <1s (sub-second part). spelling: every text [-](Nd)?(Nh)?(Nm)?(Ns)? with units in that order, each gap independently none or one space, N from the listed set; must parse to sign*(24h*d+h+m+s). distinct = distinct text shape (part, sign, units present, digit count of each number, spacing)")
 	r.Assume("time.Duration arithmetic is the reference for what a text denotes", "a leading '-' applies to the whole duration (Go's syntax; also what FormatDuration prints)", "units us/µs/ns/ms and fractional numbers combined with 'd' are not judged")
 	r.Finish()
 }
